@@ -103,7 +103,7 @@ func RunWindows(seed, part, parts int, t *Trace, seg int) int {
 		go func() {
 			atomic.StoreInt64(&victimG, goid())
 			defer close(done)
-			v.Exec(s.API)
+			v.ExecRaw(s.API)
 		}()
 		var hist []HEv
 		hist = append(hist, HEv{Ev: "inv", Seq: a, Cl: 1, Call: v})
